@@ -238,6 +238,34 @@ impl Env {
         }
         // plain entry points when the batch is plain
         if list.iter().all(|i| !self.entries[*i].f.uses_wild_or_dom()) {
+            let trees: Vec<HctlTreeNode> = list.iter().map(|i| self.entries[*i].tree.clone()).collect();
+            for (name, r) in [
+                ("model_check_multiple_formulae", guarded(AssertUnwindSafe(|| mc::model_check_multiple_formulae(texts.clone(), g)))),
+                ("model_check_multiple_trees", guarded(AssertUnwindSafe(|| mc::model_check_multiple_trees(trees.clone(), g)))),
+            ] {
+                match r {
+                    Ok(Ok(rs)) => {
+                        for (i, r) in rs.iter().enumerate() {
+                            if let Some(d) = self.ctx.diff_canonical(r, &self.entries[list[i]].expected) {
+                                self.violation(batch, order, format!("{name} on {texts:?}, position {i}: {d}"));
+                            }
+                        }
+                    }
+                    Ok(Err(e)) => self.violation(batch, order, format!("{name} returns Err on {texts:?}: {e}")),
+                    Err(p) => self.violation(batch, order, format!("{name} panics on {texts:?}: {p}")),
+                }
+            }
+            match guarded(AssertUnwindSafe(|| mc::model_check_multiple_trees_dirty(trees.clone(), g))) {
+                Ok(Ok(rs)) => {
+                    for (i, r) in rs.iter().enumerate() {
+                        if let Some(w) = self.judge(list[i], r) {
+                            self.violation(batch, order, format!("model_check_multiple_trees_dirty on {texts:?}, position {i}: {w}"));
+                        }
+                    }
+                }
+                Ok(Err(e)) => self.violation(batch, order, format!("model_check_multiple_trees_dirty returns Err on {texts:?}: {e}")),
+                Err(p) => self.violation(batch, order, format!("model_check_multiple_trees_dirty panics on {texts:?}: {p}")),
+            }
             match guarded(AssertUnwindSafe(|| mc::model_check_multiple_formulae_dirty(texts.clone(), g))) {
                 Ok(Ok(rs)) => {
                     for (i, r) in rs.iter().enumerate() {
